@@ -4,8 +4,11 @@
 (* in lock step, and what must hold between their final element tensors.   *)
 (*                                                                         *)
 (* Input IOEnv.S4_INPUT : [kernels |-> <<K...>>, pairs |-> <<R...>>] with  *)
-(*   R = [mode, a, b, pa, pb, inimode]      a, b kernel indices, pa, pb    *)
-(*                                          data planes of kernel a        *)
+(*   R = [mode, a, b, pa, pb, inimode, extra]   a, b kernel indices; pa,   *)
+(*        pb data planes of kernel a; inimode/extra: which entity /        *)
+(*        permutation vectors TLC ranges over (Kernel!Inis) - for interior *)
+(*        facets these must include vectors whose two sides DIFFER, else   *)
+(*        the '+' and '-' accesses coincide and programs agree by accident *)
 (* Both machines always run on kernel a's DATA (extents, planes), so that  *)
 (* two programs are compared on identical inputs by construction.          *)
 (*                                                                         *)
@@ -55,7 +58,7 @@ Init ==
   \E p \in 1..Len(Pairs) :
     LET r == Pairs[p]
         K == Kernels[r.a]
-    IN \E ini \in M!Inis([K EXCEPT !.inimode = r.inimode]) :
+    IN \E ini \in M!Inis([K EXCEPT !.inimode = r.inimode, !.extra = r.extra]) :
          /\ pid = p
          /\ m1 = M!InitM(r.a, ini, r.pa, K.planes[r.pa].A0)
          /\ m2 = M!InitM(r.b, ini, r.pa, PlaneB(K, r).A0)
